@@ -129,6 +129,16 @@ func verifC08SortAddrs(l addressList) {
 	}
 }
 
+// VerifC08AcctDirty returns stateObjectsDirty, sorted.
+func (st *StateDB) VerifC08AcctDirty() []common.Address {
+	var l addressList
+	for a := range st.stateObjectsDirty {
+		l = append(l, a)
+	}
+	verifC08SortAddrs(l)
+	return l
+}
+
 // VerifC08RevisionIds returns the ids of the valid revisions, oldest first.
 func (st *StateDB) VerifC08RevisionIds() []int {
 	out := make([]int, 0, len(st.validRevisions))
